@@ -36,6 +36,14 @@ Fixpoint cnode (n : tnode) : stmt :=
   | NContinue => SContinue
   | NBreakIf e => SBreakIf 1 (compile e)
   | NContinueIf e => SContinueIf 1 (compile e)
+  | NReserve n rid blk arg =>
+    SReserve 1 rid n
+      (match blk, arg with
+       | Some b, Some e => Some (1%nat, compile e, Some (map cnode b))
+       | Some b, None => Some (1%nat, ENull, Some (map cnode b))
+       | None, Some e => Some (1%nat, compile e, None)
+       | None, None => None
+       end)
   end.
 
 (* what the printer can spell and the model treats like the specification: literals in range;
@@ -61,6 +69,7 @@ Fixpoint node_ok (n : tnode) : Prop :=
      | Some (PostAssign _ e) => lits_ok e
      | None => True
      end) /\ all body /\ oall els
+  | NReserve _ _ blk arg => oall blk /\ match arg with Some e => lits_ok e | None => True end
   end.
 
 Definition nodes_ok (l : list tnode) : Prop :=
@@ -317,6 +326,21 @@ Lemma rn_each f sc v arr body els :
   | SErr => TFail
   | SUnspec => TUnprintable
   end.
+Proof. reflexivity. Qed.
+
+Lemma rn_reserve_block f sc n rid b a :
+  run_node T (S f) sc (NReserve n rid (Some b) a) =
+  match run_nodes T f sc b with TOk o _ sc1 => TOk o SigNormal sc1 | r => r end.
+Proof. reflexivity. Qed.
+Lemma rn_reserve_expr f sc n rid e :
+  run_node T (S f) sc (NReserve n rid None (Some e)) =
+  match ev T sc e with
+  | SVal v => match value_string v with Some s => TOk s SigNormal sc | None => TUnprintable end
+  | SErr => TFail
+  | SUnspec => TUnprintable
+  end.
+Proof. reflexivity. Qed.
+Lemma rn_reserve_empty f sc n rid : run_node T (S f) sc (NReserve n rid None None) = TOk [] SigNormal sc.
 Proof. reflexivity. Qed.
 
 Lemma rn_break f sc : run_node T (S f) sc NBreak = TOk [] SigBreak sc.
@@ -938,6 +962,38 @@ Proof.
       destruct (truthy_spec v); [apply (rs_ok VContinue)|apply (rs_ok VNil)]; try reflexivity; exact Hc.
     + destruct H as (ln & msg & ->). cbn. do 2 eexists. reflexivity.
     + exact I.
+  - (* @reserve with what the page inserts *)
+    cbn [node_ok] in Hok. destruct Hok as [Hblk Harg].
+    destruct blk as [b|].
+    + (* a block body: rendered in the scope of the reserve's place *)
+      destruct (HNS sc b Hc Hblk) as [K H]. exists (S K). intros fm Hfm. destruct fm as [|fm]; [lia|].
+      specialize (H fm ltac:(lia) []).
+      assert (Ev : eval_stmt cx0 (S fm) sc (cnode (NReserve name rid (Some b) arg)) =
+                   (let! r := eval_block cx0 fm sc (map cnode b) [] in Ok (VReserve (fst r) None, snd r)))
+        by (destruct arg; reflexivity).
+      rewrite Ev, rn_reserve_block.
+      destruct (run_nodes T f sc b) as [o s sc1| | |]; unfold Rb in H; unfold Rs; try exact I.
+      * destruct H as (vs & ss & He & Hss & Hcat & _ & _ & Hcl). rewrite He. cbv beta iota. cbn [fst snd rev app].
+        destruct (block_value vs ss Hss) as (Hv & _ & _).
+        apply (rs_ok (VReserve (VBlock vs) None)); try reflexivity; [|exact Hcl].
+        cbn [value_string]. cbn [value_string] in Hv. rewrite Hv, Hcat. reflexivity.
+      * destruct H as (ln & msg & ->). do 2 eexists. reflexivity.
+    + destruct arg as [e|].
+      * (* the expression form *)
+        destruct (ev_case sc e Harg Hc) as [K H]. exists (S K). intros fm Hfm.
+        destruct fm as [|fm]; [lia|]. specialize (H fm ltac:(lia)).
+        assert (Ev : eval_stmt cx0 (S fm) sc (cnode (NReserve name rid None (Some e))) =
+                     (let! v := eval_expr cx0 fm sc (compile e) in Ok (VReserve VNil (Some v), sc))).
+        { cbn [cnode eval_stmt]. pose proof (compile_not_null e) as Hn. destruct (compile e); try reflexivity. congruence. }
+        rewrite Ev, rn_reserve_expr.
+        destruct (ev T sc e) as [v| |].
+        -- destruct H as [-> Hv]. cbv beta iota. destruct (value_string v) as [str|] eqn:Es; [|exact I].
+           apply (rs_ok (VReserve VNil (Some v))); try reflexivity; [|exact Hc]. cbn [value_string]. exact Es.
+        -- destruct H as (ln & msg & ->). cbn. do 2 eexists. reflexivity.
+        -- exact I.
+      * (* nothing inserted *)
+        exists 1%nat. intros fm Hfm. destruct fm; [lia|]. rewrite rn_reserve_empty. cbn [cnode eval_stmt].
+        apply (rs_ok VNil); try reflexivity. exact Hc.
 Qed.
 
 (* ---------- all together *)
